@@ -123,7 +123,7 @@ impl Check for Admission {
         let mut ops = Vec::new();
         for _ in 0..n {
             let a = rng.below(pool.len() as u64);
-            match rng.weighted(&[30, 12, 14, 4, 4, 3, 3, 6, if n_api > 0 { 8 } else { 0 }, if n_api > 0 { 2 } else { 0 }, if n_api > 0 { 5 } else { 0 }]) {
+            match rng.weighted(&[30, 12, 14, 4, 4, 3, 3, 6, if n_api > 0 { 8 } else { 0 }, if n_api > 0 { 2 } else { 0 }, if n_api > 0 { 5 } else { 0 }, if n_groups > 0 { 4 } else { 0 }]) {
                 0 => ops.push(jarr!["conn", a, rng.below(4), *rng.pick(&[0u64, 1, 3, 5, 15]), rng.below(4)]),
                 1 => ops.push(jarr!["handshake", a]),
                 2 => ops.push(jarr!["close", a]),
@@ -132,6 +132,10 @@ impl Check for Admission {
                 5 => ops.push(jarr!["second", a]),
                 8 => ops.push(jarr!["api-add", rng.below(n_api.max(1))]),
                 9 => ops.push(jarr!["api-del", rng.below(n_api.max(1))]),
+                11 => {
+                    let fams = *rng.pick(&[0u64, 1, 3]);
+                    ops.push(jarr!["grp-upd", rng.below(n_groups.max(1)), *rng.pick(&[0u64, 30, 240]), fams, rng.below(4), rng.chance(1, 3)]);
+                }
                 10 => {
                     let fams = *rng.pick(&[0u64, 1, 3, 5]);
                     ops.push(jarr!["api-upd", rng.below(n_api.max(1)), *rng.pick(&[0u64, 0, 9, 90]), fams, rng.below(4), rng.chance(1, 3), if rng.chance(1, 2) { rng.range(1, 5) } else { 0 }]);
@@ -153,7 +157,7 @@ impl Check for Admission {
 
     fn info(&self) -> CheckInfo {
         CheckInfo {
-            rule: "1-3 static neighbours (eBGP / iBGP / RR client / RS client / confed member, admin-down flags, hold 0/9/90/180, family sets, add-path modes, GR) and 0-3 peer groups with dynamic prefixes (nested and overlapping IPv4, IPv6, 0.0.0.0/0); connections from 11 source addresses inside and outside them; ops connect (with a drawn remote capability list: family set, add-path mode 0-3, GR), complete the handshake, close, open a second connection in the same direction, operator disable/enable, waits, `api-add` / `api-upd` / `api-del` (0-2 further neighbours configured, re-configured and removed through the real AddPeer / UpdatePeer / DeletePeer handlers, 2 of 3 as members of a named peer group whose AS, hold time, families, add-path and route-server flag they inherit where they have none of their own, with graceful restart and per-family prefix limits of their own), and `dial`: the remote side of a non-passive neighbour listens and takes the daemon's own outgoing connection, in one third of the cases with an operator task that disables the neighbour at the instant the TCP handshake completes (after the connect task queued the socket, before the dispatch loop took it). Oracle on the wire and on Global: a connection is served (OPEN sent) iff the reference admission predicate holds, otherwise closed before any OPEN byte; the OPEN's AS (confederation id towards non-members), hold time, router id and capability list (families, add-path, graceful restart with its time and families, 4-octet AS) equal the neighbour's or group's configuration; the prefix limits in the peer record equal the configured ones; role read back from the peer record equals the reference; both negotiate(a,b)/negotiate(b,a) give mirror-image parameters; a dynamic neighbour's record disappears when its last connection ends. non-trivial = at least one dynamic neighbour was created or one connection was refused".into(),
+            rule: "1-3 static neighbours (eBGP / iBGP / RR client / RS client / confed member, admin-down flags, hold 0/9/90/180, family sets, add-path modes, GR) and 0-3 peer groups with dynamic prefixes (nested and overlapping IPv4, IPv6, 0.0.0.0/0); connections from 11 source addresses inside and outside them; ops connect (with a drawn remote capability list: family set, add-path mode 0-3, GR), complete the handshake, close, open a second connection in the same direction, operator disable/enable, waits, `api-add` / `api-upd` / `api-del` (0-2 further neighbours configured, re-configured and removed through the real AddPeer / UpdatePeer / DeletePeer handlers, 2 of 3 as members of a named peer group whose AS, hold time, families, add-path and route-server flag they inherit where they have none of their own, with graceful restart and per-family prefix limits of their own), `grp-upd` (UpdatePeerGroup with another hold time, family set, add-path mode, graceful restart; dynamic neighbours created afterwards are judged against the new values), and `dial`: the remote side of a non-passive neighbour listens and takes the daemon's own outgoing connection, in one third of the cases with an operator task that disables the neighbour at the instant the TCP handshake completes (after the connect task queued the socket, before the dispatch loop took it). Oracle on the wire and on Global: a connection is served (OPEN sent) iff the reference admission predicate holds, otherwise closed before any OPEN byte; the OPEN's AS (confederation id towards non-members), hold time, router id and capability list (families, add-path, graceful restart with its time and families, 4-octet AS) equal the neighbour's or group's configuration; the prefix limits in the peer record equal the configured ones; role read back from the peer record equals the reference; both negotiate(a,b)/negotiate(b,a) give mirror-image parameters; a dynamic neighbour's record disappears when its last connection ends. non-trivial = at least one dynamic neighbour was created or one connection was refused".into(),
             components_real: vec!["accept_connection, Global::add_peer, PeerParams::{build,build_local_cap}, Peer::peer_role, PeerSession::run (delete-on-disconnect)".into(), "packet::{IpNet::contains, PeerCodec::negotiate}".into(), "fsm::PeerFsm (effective send-max)".into(), "GrpcService::{disable_peer,enable_peer}".into()],
             components_stubbed: vec!["TCP (the remote address is whatever the scenario says), clock, listener loop, remote speakers".into()],
             assumptions: vec!["where several dynamic prefixes match, any matching group may be chosen (the statement does not pick one)".into()],
@@ -255,7 +259,7 @@ async fn run(case: Json, tol: Tolerate) -> Outcome {
                 .collect()
         })
         .unwrap_or_default();
-    let groups: Vec<GroupCfg> = case
+    let mut groups: Vec<GroupCfg> = case
         .get("groups")
         .map(|s| {
             s.arr()
@@ -668,6 +672,31 @@ async fn run(case: Json, tol: Tolerate) -> Outcome {
                         }
                     }
                     Err(_) => out.hit("op.api-neighbour-refused"),
+                }
+            }
+            "grp-upd" if !groups.is_empty() => {
+                // UpdatePeerGroup with a new hold time, family set, add-path mode and graceful restart.
+                // Dynamic neighbours that exist were set up from the old values: our side closes their
+                // connections first, so that every dynamic neighbour judged from here on is a new one.
+                let gi = op.at(1).as_usize() % groups.len();
+                let dynamic: Vec<usize> = conns.keys().copied().filter(|a| !statics.iter().any(|s| s.addr == pool[*a].to_string())).collect();
+                for a in dynamic {
+                    if let Some(mut sp) = conns.remove(&a) {
+                        sp.close();
+                    }
+                }
+                for _ in 0..3 {
+                    w.quiesce().await;
+                }
+                let mut g2 = groups[gi].clone();
+                g2.hold = op.at(2).as_u64();
+                g2.fam_mask = op.at(3).as_u64();
+                g2.addpath = op.at(4).as_u64() as u8;
+                g2.gr = op.at(5).as_bool() && g2.fam_mask != 0;
+                let name = format!("g{}", gi);
+                if w.grpc.update_peer_group(tonic::Request::new(api::UpdatePeerGroupRequest { peer_group: Some(api_group_msg(&name, &g2)), ..Default::default() })).await.is_ok() {
+                    groups[gi] = g2;
+                    out.hit("op.peer-group-updated");
                 }
             }
             "api-del" if !api_peers.is_empty() => {
